@@ -46,13 +46,16 @@ def NoBreak (l : Str) : Prop := ∀ c ∈ l, isLineBreak c = false
 
 theorem isLineBreak_isPySpace {c : Char} (h : isLineBreak c = true) : isPySpace c = true := by
   simp only [isLineBreak, Bool.or_eq_true, beq_iff_eq, Bool.and_eq_true, decide_eq_true_eq] at h
-  simp only [isPySpace, Bool.or_eq_true, beq_iff_eq, Bool.and_eq_true, decide_eq_true_eq]
-  rcases h with (((h | h) | h) | h) | h
+  simp only [isPySpace, isUniSpace, Bool.or_eq_true, beq_iff_eq, Bool.and_eq_true, decide_eq_true_eq]
+  rcases h with (((((((h | h) | h) | h) | h) | h) | h) | h)
+  · exact Or.inl (Or.inl (Or.inl (Or.inl (Or.inl (Or.inr h)))))
   · exact Or.inl (Or.inl (Or.inl (Or.inl (Or.inr h))))
   · exact Or.inl (Or.inl (Or.inl (Or.inr h)))
   · exact Or.inl (Or.inl (Or.inr h))
-  · exact Or.inl (Or.inr h)
-  · exact Or.inr ⟨h.1, by omega⟩
+  · exact Or.inl (Or.inr ⟨h.1, by omega⟩)
+  · exact Or.inr (by simp [h])
+  · exact Or.inr (by simp [h])
+  · exact Or.inr (by simp [h])
 
 theorem noBreak_of_noSpace {c : Char} (h : isPySpace c = false) : isLineBreak c = false := by
   cases hb : isLineBreak c with
